@@ -7,18 +7,18 @@ use tz::timezone::{AlternateTime, Julian0WithLeap, Julian1WithoutLeap, LeapSecon
 use tz::TzError;
 
 pub fn ltt(t: &MType) -> LocalTimeType {
-    LocalTimeType::new(t.off, t.dst, t.name.as_deref()).expect("model type must be constructible")
+    LocalTimeType::new(t.off, t.dst, t.name()).expect("model type must be constructible")
 }
 
 pub fn same_type(l: &LocalTimeType, m: &MType) -> bool {
-    l.ut_offset() == m.off && l.is_dst() == m.dst && l.time_zone_designation().as_bytes() == m.name.as_deref().unwrap_or(b"")
+    l.ut_offset() == m.off && l.is_dst() == m.dst && l.time_zone_designation().as_bytes() == m.name().unwrap_or(b"")
 }
 
 pub fn type_json(l: &LocalTimeType) -> Value {
     json!({"off": l.ut_offset(), "dst": l.is_dst(), "name": l.time_zone_designation()})
 }
 pub fn mtype_json(m: &MType) -> Value {
-    json!({"off": m.off, "dst": m.dst, "name": m.name.as_ref().map(|n| String::from_utf8_lossy(n).to_string()).unwrap_or_default()})
+    json!({"off": m.off, "dst": m.dst, "name": m.name().map(|n| String::from_utf8_lossy(n).to_string()).unwrap_or_default()})
 }
 
 pub fn rule_day(d: Day) -> RuleDay {
@@ -107,7 +107,7 @@ pub fn zone_json(z: &MZone) -> Value {
 
 fn mtype_from_json(v: &Value) -> MType {
     let name = v["name"].as_str().unwrap_or("");
-    MType { off: v["off"].as_i64().unwrap() as i32, dst: v["dst"].as_bool().unwrap(), name: if name.is_empty() { None } else { Some(name.as_bytes().to_vec()) } }
+    MType::new(v["off"].as_i64().unwrap() as i32, v["dst"].as_bool().unwrap(), if name.is_empty() { None } else { Some(name) })
 }
 
 pub fn zone_from_json(cyc: &refmodel::cal::Cycle, v: &Value) -> MZone {
